@@ -32,7 +32,7 @@ ENCODES = ['pexpect.spawnbase.SpawnBase.read_nonblocking', 'pexpect.pty_spawn.sp
            'pexpect.fdpexpect.fdspawn.read_nonblocking', 'pexpect.popen_spawn.PopenSpawn.read_nonblocking',
            'pexpect.socket_pexpect.SocketSpawn.read_nonblocking', 'pexpect._async_w_await.PatternWaiter.data_received',
            'pexpect.spawnbase.SpawnBase.__init__']
-STUBS = ['FakeDecoder: uninterpreted stateful incremental decoder (k-th call returns token Dk;), records (chunk, final)',
+STUBS = ['FakeDecoder: uninterpreted stateful incremental decoder (k-th call returns a distinct token as long as its input), records (chunk, final)',
          'PeerWorld / FakeSocket / FakeQueue as in C06', 'D3: CPython\'s real incremental decoders, objects built outside tracing']
 ASSUMPTIONS = ['A1: CPython incremental decoders are split-invariant (checked on the D3 corpus, not proved)',
                'streams that do not end inside a character']
@@ -46,7 +46,7 @@ def _check(dec, chunks_expected, returned, log_events):
     for c, f in dec.calls:
         if f is not False:
             return False
-    want = ''.join('D%d;' % k for k in range(len(dec.calls)))
+    want = dec.all_out()
     if returned != want:
         return False
     logged = ''.join(v for n, op, v in log_events if op == 'write')
@@ -111,6 +111,7 @@ class _Q:
                  '(already decoded text) is not decoded again')
 def D1_popen(n, c1, c2, c3, size, carry):
     n = pick(n, 0, 3)
+    c1, c2, c3, size, carry = pick(c1, 1, 2), pick(c2, 1, 2), pick(c3, 1, 2), pick(size, 1, 4), pick(carry, 0, 2)
     sizes = [c1, c2, c3][:n]
     chunks = []
     off = 0
@@ -127,7 +128,9 @@ def D1_popen(n, c1, c2, c3, size, carry):
     pre = 'PREV'[:carry]
     sp._buf = pre
     sp._read_queue = _Q(chunks)
-    got = sp.read_nonblocking(size, 1)
+    from harness.common import Clock
+    with patched(PO, time=Clock(0)):
+        got = sp.read_nonblocking(size, 1)
     k = len(dec.calls)
     fed = b''.join(c for c, f in dec.calls)
     if fed != b''.join(chunks[:k]):
@@ -135,7 +138,7 @@ def D1_popen(n, c1, c2, c3, size, carry):
     for c, f in dec.calls:
         if f is not False:
             return 0
-    allout = pre + ''.join('D%d;' % i for i in range(k))
+    allout = pre + dec.all_out()
     if got != allout[:size] or sp._buf != allout[size:]:
         return 0
     logged = ''.join(v for nm, op, v in ev.ev if op == 'write')
@@ -224,7 +227,7 @@ def D1_async(n, done):
     chunks = [STREAM[0:2], STREAM[2:3], STREAM[3:6]][:n]
     for c in chunks:
         pw.data_received(c)
-    want = ''.join('D%d;' % k for k in range(n))
+    want = dec.all_out()
     if not _check(dec, b''.join(chunks), want, ev.ev):
         return 0
     if sp._before.getvalue() != want or not want.endswith(sp._buffer.getvalue()) or not sp._buffer.getvalue():
@@ -329,11 +332,12 @@ def D3_real_codecs(k, c1, c2, err):
     want = data.decode(enc, err)
     if out != want:
         return 0
-    whole = codecs.getincrementaldecoder(enc)(err)
     inside = False
-    for c in (c1, c2):
-        if 0 < c < n and whole.decode(data[:c]) + codecs.getincrementaldecoder(enc)(err).decode(data[c:]) != want:
-            inside = True
+    if text is not None:
+        bounds = {len(text[:i].encode(enc)) for i in range(len(text) + 1)} | {0}
+        for c in (c1, c2):
+            if 0 < c < n and c not in bounds:
+                inside = True
     return 2 if inside else 3
 
 
